@@ -21,6 +21,9 @@ type genCfg struct {
 	NoComma  bool
 	NoSpread bool
 	MaxArgs  int
+	// C10: callees are names or dotted paths only; assignment targets are bare names from Targets
+	CalleePathOnly bool
+	Targets        []string
 }
 
 var syntaxCfg = genCfg{
@@ -92,7 +95,11 @@ func genExpr(t *rapid.T, cfg *genCfg, depth int, min int) *ref.Node {
 		if cfg.NoAssign {
 			n = genLeaf(t, cfg)
 		} else {
-			n = &ref.Node{Kind: "bin", Op: "=", Kids: []*ref.Node{sub(2), sub(ref.LvAssign)}}
+			lhs := sub(2)
+			if len(cfg.Targets) > 0 {
+				lhs = &ref.Node{Kind: "id", Val: rapid.SampledFrom(cfg.Targets).Draw(t, "target")}
+			}
+			n = &ref.Node{Kind: "bin", Op: "=", Kids: []*ref.Node{lhs, sub(ref.LvAssign)}}
 		}
 	case k == 11:
 		n = &ref.Node{Kind: "cond", Kids: []*ref.Node{sub(2), sub(ref.LvAssign), sub(ref.LvAssign)}}
@@ -104,7 +111,12 @@ func genExpr(t *rapid.T, cfg *genCfg, depth int, min int) *ref.Node {
 		n = &ref.Node{Kind: "sel", Val: rapid.SampledFrom(cfg.SelNames).Draw(t, "sel"), Assert: rapid.IntRange(0, 3).Draw(t, "assert") == 0, Kids: []*ref.Node{sub(ref.LvPostfix)}}
 	case k == 17:
 		var callee *ref.Node
-		if len(cfg.Callees) > 0 && rapid.IntRange(0, 3).Draw(t, "namedcallee") > 0 {
+		if cfg.CalleePathOnly {
+			callee = &ref.Node{Kind: "id", Val: rapid.SampledFrom(cfg.Callees).Draw(t, "callee")}
+			for k := rapid.IntRange(0, 2).Draw(t, "calleepath"); k > 0 && rapid.IntRange(0, 2).Draw(t, "deeper") == 0; k-- {
+				callee = &ref.Node{Kind: "sel", Val: rapid.SampledFrom(cfg.SelNames).Draw(t, "calleesel"), Kids: []*ref.Node{callee}}
+			}
+		} else if len(cfg.Callees) > 0 && rapid.IntRange(0, 3).Draw(t, "namedcallee") > 0 {
 			callee = &ref.Node{Kind: "id", Val: rapid.SampledFrom(cfg.Callees).Draw(t, "callee")}
 		} else {
 			callee = sub(ref.LvPostfix)
